@@ -74,7 +74,7 @@ def bad_index_sites(P: Dict[str, Any]) -> Set[str]:
             continue
         for e in list(s["args"]) + list(s["kwargs"].values()) + [s.get("active")]:
             while e is not None and e[0] == "i":
-                if e[2] == 7:
+                if e[2] == 7 or e[2] == "zz":
                     out.add(s["site"])
                 e = e[1]
     return out
